@@ -1,0 +1,40 @@
+//go:build verif
+
+// Verification hooks (build tag "verif"): read-only views of the pipe id allocator and of a
+// socket's pipe list for the /verif correspondence harness.  Not part of the normal build.
+
+package core
+
+import (
+	"sort"
+
+	"go.nanomsg.org/mangos/v3"
+)
+
+// VerifPipeIDsInUse returns the pipe ids currently reserved in the process-wide allocator.
+func VerifPipeIDsInUse() []uint32 {
+	pipeIDs.lock.Lock()
+	defer pipeIDs.lock.Unlock()
+	ids := make([]uint32, 0, len(pipeIDs.used))
+	for id := range pipeIDs.used {
+		ids = append(ids, id)
+	}
+	sort.Slice(ids, func(i, j int) bool { return ids[i] < ids[j] })
+	return ids
+}
+
+// VerifPipesListed returns the ids of the pipes in the socket's pipe list.
+func VerifPipesListed(sock mangos.Socket) []uint32 {
+	s, ok := sock.(*socket)
+	if !ok {
+		return nil
+	}
+	s.pipes.lock.Lock()
+	defer s.pipes.lock.Unlock()
+	ids := make([]uint32, 0, len(s.pipes.pipes))
+	for id := range s.pipes.pipes {
+		ids = append(ids, id)
+	}
+	sort.Slice(ids, func(i, j int) bool { return ids[i] < ids[j] })
+	return ids
+}
